@@ -264,8 +264,15 @@ class MasterMonitor(Monitor):
         M' must have been a Master already recognised by some live instance when the group was on M. """
         w = run.world
         records = {}   # master nick -> record of the last sample where a group was converged on it
+        # a cut keeps producing effects after it is healed: the ticks missed meanwhile make the failure detection fire
+        # up to inactivity_ticks (+ margin) ticks later, and the Master may legitimately change then
+        from vsim.gen import effective_options
+        grace = (effective_options(run.scenario['options'])['inactivity_ticks'] + 3) * TICK
+        last_cut_activity, last_count = -1e9, 0
         for sample in run.samples:
             vws, incs = sample['views'], sample['incs']
+            if sample['cut'] or sample['cut_count'] != last_count:
+                last_cut_activity, last_count = sample['vt'], sample['cut_count']
             for rec in records.values():
                 m = rec['master']
                 if sample['cut'] or sample['cut_count'] != rec['cut_count'] or incs.get(m) != rec['inc'] or \
@@ -290,7 +297,8 @@ class MasterMonitor(Monitor):
                                          f'{comp} is converged on {mnick} at vt={sample["vt"]}', case=run.describe())
                     del records[old]
                 records[mnick] = {'master': mnick, 'vt': sample['vt'], 'group': comp, 'inc': incs.get(mnick),
-                                  'valid': not sample['cut'], 'recognised': recognised,
+                                  'valid': not sample['cut'] and sample['vt'] - last_cut_activity > grace,
+                                  'recognised': recognised,
                                   'cut_count': sample['cut_count']}
 
     def check_kept_and_rule(self, run, comp, mnick):
@@ -371,6 +379,20 @@ class ProgressMonitor(Monitor):
                     key = 'no-master-agreement:' + '+'.join(sorted(set(states.values())))
                 elif vws[mnick]['state'] not in allowed:
                     key = 'master-parked:' + vws[mnick]['state']
+                    if vws[mnick]['state'] == 'CONCILIATION':
+                        # conflicts that only exist in a stale view of the Master can never be conciliated (the stop
+                        # requests answer NOT_RUNNING, the conflict is seen again): consequence of the C12 finding
+                        try:
+                            seen = peek(w, mnick, 'supvisors.get_conflicts')
+                            untrue = [c for c in seen if sum(
+                                1 for i in c['identifiers']
+                                if w.instances[w.by_identifier[i]].alive and
+                                w.instances[w.by_identifier[i]].running_truth().get(
+                                    f"{c['application_name']}:{c['process_name']}") in (10, 20, 30)) < 2]
+                            if seen and len(untrue) == len(seen):
+                                key += ':conflict-only-in-a-stale-view'
+                        except (Fault, KeyError):
+                            pass
                 elif any(s != vws[mnick]['state'] for s in states.values()):
                     behind = sorted({s for n, s in states.items() if s != vws[mnick]['state']})
                     key = 'slave-behind:' + '+'.join(behind) + '/master=' + vws[mnick]['state']
